@@ -1,7 +1,9 @@
 """concurrent.futures as seen by the code under test: a process-pool *model*.
 
-* every task runs on deep copies of the callable and of its arguments (what pickling across processes
-  gives): mutations made by a task are invisible to the parent and to other tasks;
+* every task runs on pickled copies of the callable and of its arguments (`pickle_copy`: the pickle protocol of the
+  objects - `__reduce_ex__`, `__getstate__` / `__setstate__` - is followed; a numpy record that travels as such comes
+  back *detached*: numpy restores it as a scalar whose field assignment has no effect): mutations made by a task are
+  invisible to the parent and to other tasks;
 * tasks *execute* in a completion order chosen by the harness (CONFIG["order"], a permutation applied per
   batch of outstanding tasks), `Executor.map` nevertheless yields results in submission order and
   `as_completed` yields them in completion order - the only two facts the model captures.
@@ -20,11 +22,72 @@ def _perm(n):
     return p + [i for i in range(n) if i not in p]
 
 
+def pickle_copy(x, memo=None):
+    """what a pickle round trip gives, for the kinds of objects the repo sends to workers"""
+    import numpy as np
+    from fractions import Fraction
+    from ..core import SR, SB
+    from ..records import SymRecord, SymRecArray
+    memo = {} if memo is None else memo
+    if id(x) in memo:
+        return memo[id(x)]
+    if x is None or isinstance(x, (bool, int, float, complex, str, bytes, Fraction, SR, SB, type, types.FunctionType,
+                                   types.BuiltinFunctionType)):
+        return x
+    if isinstance(x, SymRecord):
+        r = SymRecord(x)
+        object.__setattr__(r, "_detached", True)     # numpy: np.record restored from a pickle; assigning its fields is lost
+        memo[id(x)] = r
+        return r
+    if isinstance(x, SymRecArray):
+        return x.copy()
+    if isinstance(x, np.ndarray):
+        if x.dtype == object:
+            out = np.empty(x.shape, dtype=object)
+            for idx in np.ndindex(*x.shape):
+                out[idx] = pickle_copy(x[idx], memo)
+            return out
+        return x.copy()
+    if type(x) in (list, tuple, set, frozenset):
+        return type(x)(pickle_copy(v, memo) for v in x)
+    if type(x) is dict:
+        return {pickle_copy(k, memo): pickle_copy(v, memo) for k, v in x.items()}
+    cls = type(x)
+    if cls.__module__.startswith(("droplets", "symx.models.grids", "symx.models.fields")) or hasattr(cls, "__slots__"):
+        try:
+            red = x.__reduce_ex__(2)
+        except Exception:
+            return copy.deepcopy(x)
+        if isinstance(red, tuple) and len(red) >= 2 and getattr(red[0], "__name__", "") == "__newobj__":
+            y = cls.__new__(cls, *red[1][1:])
+            memo[id(x)] = y
+            state = pickle_copy(red[2], memo) if len(red) > 2 and red[2] is not None else None
+            if state is not None:
+                if hasattr(y, "__setstate__") and "__setstate__" in {k for c in cls.__mro__ for k in vars(c)} - set(vars(object)):
+                    y.__setstate__(state)
+                else:
+                    slots = None
+                    if isinstance(state, tuple) and len(state) == 2:
+                        state, slots = state
+                    for k, v in (state or {}).items():
+                        y.__dict__[k] = v
+                    for k, v in (slots or {}).items():
+                        setattr(y, k, v)
+            if len(red) > 3 and red[3] is not None:
+                for item in red[3]:
+                    list.append(y, pickle_copy(item, memo))
+            if len(red) > 4 and red[4] is not None:
+                for k, v in red[4]:
+                    y[pickle_copy(k, memo)] = pickle_copy(v, memo)
+            return y
+    return copy.deepcopy(x)
+
+
 def _copy_callable(fn):
     """what pickling does to a callable: functions go by reference, the arguments bound in a partial are copied"""
     import functools
     if isinstance(fn, functools.partial):
-        return functools.partial(_copy_callable(fn.func), *copy.deepcopy(fn.args), **copy.deepcopy(fn.keywords))
+        return functools.partial(_copy_callable(fn.func), *pickle_copy(fn.args), **pickle_copy(fn.keywords))
     return fn
 
 
@@ -40,7 +103,7 @@ class Future:
             return
         fn, args, kwargs = self._call
         fn = _copy_callable(fn)
-        args, kwargs = copy.deepcopy((args, kwargs))
+        args, kwargs = pickle_copy((args, kwargs))
         try:
             self._res = fn(*args, **kwargs)
         except Exception as e:      # delivered when result() is called, as a real future does
